@@ -165,6 +165,19 @@ def cmd_table():
         print(f"{sid:8} conf={'ok' if c.get('ok') else ('-' if not c else 'NO')} {det} :: {m.get('needs','')[:110]}")
 
 
+def cmd_design():
+    """print a compact markdown table (seed, caught by which checks) for DESIGN.md §6"""
+    print("| seed | caught by (quick tier, VERIF_SEED=1) | missed by | confirmed |")
+    print("|---|---|---|---|")
+    for sid in sorted(os.listdir(SEEDED)):
+        if not os.path.exists(meta_path(sid)): continue
+        m = load(sid)
+        det = sorted({k.split(":")[0] for k, v in m.get("checks", {}).items() if v["detected"]})
+        mis = sorted({k.split(":")[0] for k, v in m.get("checks", {}).items() if not v["detected"]} - set(det))
+        c = m.get("confirmed") or {}
+        print(f"| {sid} | {', '.join(det) or '—'} | {', '.join(mis) or '—'} | {'yes' if c.get('ok') else ('no' if c else 'not run')} |")
+
+
 def cmd_readme():
     """write /verif/seeded/README.md: one row per seeded change"""
     rows = []
@@ -211,3 +224,4 @@ if __name__ == "__main__":
         cmd_check(a[1], rest, tier, seed)
     elif a[0] == "table": cmd_table()
     elif a[0] == "readme": cmd_readme()
+    elif a[0] == "design": cmd_design()
